@@ -623,6 +623,10 @@ class VectorContainer:
                 if isinstance(start, slice):
                     start = start.start
 
+            # Only a period label (in backticks) denotes a closed interval; a
+            # plain integer keeps its usual (exclusive) Python meaning
+            stop_is_label = '`' in stop
+
             if len(stop):
                 stop = resolve_index_in_span(stop)
 
@@ -633,7 +637,7 @@ class VectorContainer:
 
             # Adjust for closed intervals on the right-hand side (mirroring
             # `pandas`)
-            if isinstance(stop, int):
+            if isinstance(stop, int) and stop_is_label:
                 stop += 1
 
             # Resolve third (`step`) argument
